@@ -35,7 +35,7 @@ def gen_constructor_cases(rng, n):
     cases = []
     for _ in range(n):
         k = rng.random()
-        multi = SubRecipe(Ingredient(gen_trees.gen_svs(rng)), tuple(gen_trees.gen_svs(rng) for _ in range(rng.randint(2, 3))))
+        multi = SubRecipe(Ingredient(gen_trees.gen_svs(rng)), tuple(gen_trees.gen_svs(rng) for _ in range(rng.randint(2, 3))), rng.random() < 0.6)
         single = SubRecipe(gen_trees.gen_tree(rng, 2, []), (gen_trees.gen_svs(rng),), rng.random() < 0.5)
         plain = gen_trees.gen_tree(rng, 2, [multi, single])
         pool = [multi, single, plain, Ingredient(SVS("x"))]
@@ -202,6 +202,14 @@ def check_refusals():
         (lambda: Recipe((multi, Step(SVS("s"), (Reference(multi, 1), Reference(multi, 0))))), "ok"),
         (lambda: Step(SVS("s"), (single,)), "ok"),
     ]
+    hidden = SubRecipe(Ingredient(SVS("a")), (SVS("x"), SVS("y")), False)      # the presentation flag has no say in what is admissible
+    exp += [
+        (lambda: Step(SVS("s"), (hidden,)), "MultiOutputSubRecipeUsedAsNonRootNodeError"),
+        (lambda: Step(SVS("s"), (Ingredient(SVS("b")), hidden, Ingredient(SVS("c")))), "MultiOutputSubRecipeUsedAsNonRootNodeError"),
+        (lambda: SubRecipe(hidden, (SVS("z"),)), "MultiOutputSubRecipeUsedAsNonRootNodeError"),
+        (lambda: SubRecipe(hidden, (SVS("z"),), False), "MultiOutputSubRecipeUsedAsNonRootNodeError"),
+        (lambda: Recipe((hidden, Step(SVS("s"), (Reference(hidden, 1),)))), "ok"),
+    ]
     for i, (f, want) in enumerate(exp):
         got = outcome(f)[0]
         if got != want:
@@ -209,10 +217,40 @@ def check_refusals():
     return out
 
 
+def expected_constructor_outcome(case):
+    """what the documentation prescribes for one constructor call (independent of recipe.py)"""
+    def is_multi(x):
+        return isinstance(x, SubRecipe) and len(x.output_names) > 1
+    if case[0] == "mkstep":
+        return "MultiOutputSubRecipeUsedAsNonRootNodeError" if any(is_multi(x) for x in case[2]) else "ok"
+    if case[0] == "mksub":
+        if is_multi(case[1]):
+            return "MultiOutputSubRecipeUsedAsNonRootNodeError"
+        return "ZeroOutputSubRecipeError" if len(case[2]) == 0 else "ok"
+    return "OutputIndexError" if not (0 <= case[2] < len(case[1].output_names)) else "ok"
+
+
+def real_constructor_outcome(case):
+    if case[0] == "mkstep":
+        return outcome(lambda: Step(case[1], tuple(case[2])))[0]
+    if case[0] == "mksub":
+        return outcome(lambda: SubRecipe(case[1], tuple(case[2]), case[3]))[0]
+    return outcome(lambda: Reference(case[1], case[2], case[3]))[0]
+
+
 def oracle(run):
     for sig, detail in check_refusals():
         run.violate(sig, detail, {"refusal": detail})
     rng = run.rng
+    for case in gen_constructor_cases(rng, run.budget(600, 8000)):
+        want = expected_constructor_outcome(case)
+        try:
+            got = real_constructor_outcome(case)
+        except Exception as e:  # noqa
+            got = "raises " + type(e).__name__
+        run.case(("ctor", case[0], want), True, kind="constructor")
+        if got not in (want,) and not (want != "ok" and got != "ok" and case[0] == "mksub"):
+            run.violate("C08:refusal-wrong", "%s: expected %s, got %s" % (case[0], want, got), {"refusal": "%s(%s)" % (case[0], ", ".join(map(repr, case[1:])))[:800]})
     for _ in range(run.budget(600, 8000)):
         rs = gen_trees.gen_blocks(rng)
         k = rng.choice([2, 3, Fraction(1, 3), Fraction(7, 2), 0.5, 1.5])
@@ -231,6 +269,16 @@ def replay(run, obj):
     r = obj["replay"]
     if "refusal" in r:
         res = check_refusals()
+        import random as _r
+        for case in gen_constructor_cases(_r.Random(obj.get("seed", 0)), 8000):
+            want = expected_constructor_outcome(case)
+            try:
+                got = real_constructor_outcome(case)
+            except Exception as e:  # noqa
+                got = "raises " + type(e).__name__
+            if got != want and not (want != "ok" and got != "ok" and case[0] == "mksub"):
+                res.append(("C08:refusal-wrong", "%s: expected %s, got %s" % (case[0], want, got)))
+                break
     elif "source" in r:
         from . import c01
         res = c01.replay_validity(r, check_recipes)
